@@ -605,6 +605,29 @@ func (g *graph) updateToValidateMap() error {
 	return nil
 }
 
+// withResultConverter returns r with the run-time type check / stream conversion hp applied to its result.
+func withResultConverter(r *composableRunnable, hp handlerPair) *composableRunnable {
+	if r == nil {
+		return nil
+	}
+	c := *r
+	c.i = func(ctx context.Context, input any, opts ...any) (any, error) {
+		out, err := r.i(ctx, input, opts...)
+		if err != nil {
+			return nil, err
+		}
+		return hp.invoke(out)
+	}
+	c.t = func(ctx context.Context, input streamReader, opts ...any) (streamReader, error) {
+		out, err := r.t(ctx, input, opts...)
+		if err != nil {
+			return nil, err
+		}
+		return hp.transform(out), nil
+	}
+	return &c
+}
+
 func (g *graph) getNodeGenericHelper(name string) *genericHelper {
 	if name == START {
 		return g.genericHelper.forPredecessorPassthrough()
@@ -727,6 +750,14 @@ func (g *graph) compile(ctx context.Context, opt *graphCompileOptions) (*composa
 
 			preProcessor:  node.nodeInfo.preProcessor,
 			postProcessor: node.nodeInfo.postProcessor,
+		}
+		if node.executorMeta.component == ComponentOfPassthrough {
+			// the state handlers of a passthrough node are declared for `any`, so what they return is
+			// an any (in stream mode: a stream of any); bring it back to the type inferred for the
+			// node, otherwise a concretely typed consumer cannot unpack the stream (panic) and a
+			// handler result of another type reaches the consumer's type assertion unchecked
+			chCall.preProcessor = withResultConverter(chCall.preProcessor, g.getNodeGenericHelper(name).inputConverter)
+			chCall.postProcessor = withResultConverter(chCall.postProcessor, g.getNodeGenericHelper(name).outputConverter)
 		}
 
 		branches := g.branches[name]
